@@ -7,7 +7,7 @@ processor with fallible primitives (Sqfs/Model/FailStopBlockProc.lean).
 All theorems quantify over every configuration `c` and every fault script `fs : List Bool`.
 -/
 import Sqfs.Proofs.FailStop
--- import Sqfs.Proofs.FailStopBlockProc
+import Sqfs.Proofs.FailStopBlockProc
 namespace Sqfs.C13
 open Sqfs.FailStop
 
@@ -231,6 +231,45 @@ theorem first_failure_stops (c : Cfg) (fs : List Bool) (k : Nat) :
   · rw [ht]; simp [failAt, okAll_ops]
   · rw [ht]; simp [failAt, List.getD_eq_getElem?_getD, List.getElem?_eq_getElem hk]
 
+/-! ### second layer: the block processor with fallible primitives -/
+
+open Sqfs.FailStop.BP in
+/-- **Errors propagate out of the block processor**: from *every* processor state and for every fault script, if
+    any primitive (block allocation, in-flight copy, pool submit, pool dequeue / worker, `write_data_block` with
+    its read-back and truncate, inode growth, fragment-table and hash-table updates) fails while an API call
+    (`begin_file`, `append`, `end_file`, `sync`, `finish`) runs, that call returns an error.  Source with
+    fixes/C13-sparse-tail-result.patch; for the pinned source see `Witness.C13.sparse_tail_fault_unreported`. -/
+theorem blockproc_error_propagates (fuel : Nat) (a : BP.Api) (p : BP.Proc) (fs : List Bool) :
+    (BP.runCall .fixed fuel a p fs).1.faulted = true → (BP.runCall .fixed fuel a p fs).1.ok = false := by
+  have hs := (sound_call fixed_checked fuel a).prop { script := fs, proc := p } rfl
+  unfold runCall
+  rcases hc : call Variant.fixed fuel a { script := fs, proc := p } with ⟨r, c⟩
+  rw [hc] at hs
+  cases r with
+  | ok u => intro h; have := hs h; simp [isErr] at this
+  | error e => intro _; rfl
+
+open Sqfs.FailStop.BP in
+/-- The same for a whole session driven the way the tools drive it (stop at the first error): a call during
+    which a primitive failed is an erroring call, hence the last one. -/
+theorem blockproc_session_propagates (fuel : Nat) (calls : List BP.Api) (p : BP.Proc) (fs : List Bool) :
+    ∀ r ∈ BP.session .fixed fuel calls p fs, r.faulted = true → r.ok = false := by
+  induction calls generalizing p fs with
+  | nil => intro r hr; simp [session] at hr
+  | cons a rest ih =>
+    intro r hr
+    simp only [session] at hr
+    have h1 := blockproc_error_propagates fuel a p fs
+    rcases hrc : runCall Variant.fixed fuel a p fs with ⟨r0, fs', p'⟩
+    rw [hrc] at hr h1
+    simp only [] at hr h1
+    split at hr
+    · rcases List.mem_cons.1 hr with h | h
+      · subst h; exact h1
+      · exact ih p' fs' r h
+    · have : r = r0 := by simpa using hr
+      subst this; exact h1
+
 /-! ### non-vacuity: the hypotheses above are satisfiable on non-trivial instances -/
 
 /-- a gensquashfs run with a pack file, three files, an export table -/
@@ -245,5 +284,12 @@ example : 25 < (program exCfg).length ∧ allFalse 25 (single 25) ∧ (single 25
   unfold allFalse
   decide
 example : (run .fixed { exCfg with tool := .tar2sqfs } (single 0)).out = .never := by decide
+
+/-- hypothesis of `blockproc_error_propagates` is satisfiable: the inode allocation of `begin_file` fails -/
+example : (BP.runCall .fixed 4 (.beginFile true false) {} [true]).1.faulted = true := by decide
+/-- … and with a processor that already holds a full block, the pool submit inside `append` fails -/
+example : (BP.runCall .fixed 4 (.append 1 false false)
+    { beginCalled := true, cur := some { size := 4 }, backlog := 1 } [true]).1 =
+    ⟨false, some .fault, true, false, [.submit]⟩ := by decide
 
 end Sqfs.C13
